@@ -7,6 +7,7 @@ import (
 	"encoding/hex"
 	"encoding/json"
 	"fmt"
+	"github.com/ory/keto/internal/namespace/ast"
 	"net/http"
 	"net/http/httptest"
 	"net/url"
@@ -395,7 +396,14 @@ type storeStepOut struct {
 func init() { families["store"] = famStore }
 
 func storeNamespaces() []*namespace.Namespace {
-	return []*namespace.Namespace{{Name: "n1"}, {Name: "n2"}}
+	// n1 and n2 carry no configuration; n3 declares r1 and r2 := r2 or r1 (Store.tla). Relation names are symbols of the
+	// specification: the configuration must name the concrete strings they are instantiated with.
+	sym := newSymtab(0)
+	r1, r2 := sym.inst("r1"), sym.inst("r2")
+	return []*namespace.Namespace{{Name: "n1"}, {Name: "n2"}, {Name: "n3", Relations: []ast.Relation{
+		{Name: r1},
+		{Name: r2, SubjectSetRewrite: &ast.SubjectSetRewrite{Children: ast.Children{&ast.ComputedSubjectSet{Relation: r1}}}},
+	}}}
 }
 
 func (e *storeEnv) protoTuple(rt *ketoapi.RelationTuple) *rts.RelationTuple {
